@@ -13,7 +13,8 @@
     "recovered with that passphrase as the identical key and address"      roundtrip, roundtrip_keeps_leading_zeros,
                                                                             short_plaintext_roundtrip (legacy files with stripped zeros),
                                                                             update_then_read, update_then_unlock (file = last write),
-                                                                            write_without_truncation_leaves_residue
+                                                                            write_without_truncation_leaves_residue,
+                                                                            unlocked_key_is_stored_key (the key Sign* uses, over unlock histories)
     "with any other passphrase unlocking fails with an error"              wrong_pass_rejected, wrong_pass_never_unlocks
     "after modification of ciphertext, MAC, salt, KDF parameters ..."      tamper_ct_mac_salt_params_rejected,
                                                                             tamper_ct_rejected, tamper_mac_rejected
@@ -368,6 +369,113 @@ theorem getKey_ok_iff (P : Prims) (a : Bytes) (f : KeyFile) (pw : Bytes) (k : Ke
   · intro ⟨h, ha⟩
     rw [h]
     simp [ha]
+
+/-- every live entry of the unlocked table is a key its account's file opens to. -/
+def UnlockedOK (P : Prims) (s : KsState) : Prop :=
+  ∀ a k t, s.unlocked a = some (k, t) → ∃ f pw, s.store a = some f ∧ getKey P a f pw = .ok k
+
+/-- Unlock-state histories: after ANY sequence of Unlock / TimedUnlock (right or wrong passphrase, on locked or already
+    unlocked accounts), Lock / expiry and Update, starting with nothing unlocked, whatever sits in the unlocked table for
+    account `a` — the key SignHash and SignTx use — is a key the account's stored file opens to, so it has the account's
+    address (address derivation assumed collision-free across Update).  In particular a second successful unlock never
+    damages or replaces the live key by anything else. -/
+theorem unlocked_key_is_stored_key (P : Prims) (hinj : ∀ d d', P.addrOf d = P.addrOf d' → d = d')
+    (s0 : KsState) (h0 : ∀ a, s0.unlocked a = none) (ops : List KsOp) :
+    UnlockedOK P (ops.foldl (KsState.step P) s0) ∧
+    ∀ a k, (ops.foldl (KsState.step P) s0).signingKey a = some k → k.addr = a := by
+  have step : ∀ (s : KsState) (op : KsOp), UnlockedOK P s → UnlockedOK P (s.step P op) := by
+    intro s op hs
+    cases op with
+    | unlock a pw timed =>
+      simp only [KsState.step]
+      cases hst : s.store a with
+      | none => simpa [hst] using hs
+      | some f =>
+        simp only [Option.map_some]
+        cases hg : getKey P a f pw with
+        | err e => simpa using hs
+        | panic => simpa using hs
+        | ok k =>
+          simp only
+          cases hu : s.unlocked a with
+          | none =>
+            simp only
+            intro x k' t hx
+            by_cases hxa : x = a
+            · subst hxa
+              simp at hx
+              obtain ⟨h1, _⟩ := hx
+              subst h1
+              exact ⟨f, pw, hst, hg⟩
+            · simp [hxa] at hx
+              exact hs x k' t hx
+          | some e =>
+            obtain ⟨k0, t0⟩ := e
+            cases t0 with
+            | false => simpa using hs
+            | true =>
+              simp only
+              intro x k' t hx
+              by_cases hxa : x = a
+              · subst hxa
+                simp at hx
+                obtain ⟨h1, _⟩ := hx
+                subst h1
+                exact ⟨f, pw, hst, hg⟩
+              · simp [hxa] at hx
+                exact hs x k' t hx
+    | lock a =>
+      simp only [KsState.step]
+      intro x k t hx
+      by_cases hxa : x = a
+      · simp [hxa] at hx
+      · simp [hxa] at hx
+        exact hs x k t hx
+    | update a pwOld pwNew fNew =>
+      simp only [KsState.step]
+      cases hst : s.store a with
+      | none => simpa [hst] using hs
+      | some f =>
+        simp only [Option.map_some]
+        cases hg : getKey P a f pwOld with
+        | err e => simpa using hs
+        | panic => simpa using hs
+        | ok k =>
+          simp only
+          by_cases hn : getKey P a fNew pwNew = .ok k
+          · rw [if_pos hn]
+            intro x k' t hx
+            by_cases hxa : x = a
+            · subst hxa
+              obtain ⟨f0, pw0, hf0, hk0⟩ := hs x k' t hx
+              rw [hst] at hf0
+              injection hf0 with hf0
+              subst hf0
+              -- the live key and the key Update decrypted come from the same file: they are the same key
+              have := (tamper_never_yields_other_key P x f f pwOld pw0 k k' hg hk0).2.2.2 (hinj _ _)
+              subst this
+              exact ⟨fNew, pwNew, by simp, hn⟩
+            · obtain ⟨f0, pw0, hf0, hk0⟩ := hs x k' t hx
+              exact ⟨f0, pw0, by simp [hxa, hf0], hk0⟩
+          · rw [if_neg hn]; exact hs
+  have all : ∀ (ops : List KsOp) (s : KsState), UnlockedOK P s → UnlockedOK P (ops.foldl (KsState.step P) s) := by
+    intro ops
+    induction ops with
+    | nil => intro s hs; exact hs
+    | cons op rest ih => intro s hs; exact ih _ (step s op hs)
+  have hfin := all ops s0 (by intro a k t h; rw [h0 a] at h; cases h)
+  refine ⟨hfin, ?_⟩
+  intro a k hk
+  unfold KsState.signingKey at hk
+  cases hu : (ops.foldl (KsState.step P) s0).unlocked a with
+  | none => rw [hu] at hk; cases hk
+  | some e =>
+    obtain ⟨k0, t⟩ := e
+    rw [hu] at hk
+    simp at hk
+    subst hk
+    obtain ⟨f, pw, _, hg⟩ := hfin a k0 t hu
+    exact ((getKey_ok_iff P a f pw k0).mp hg).2
 
 /-! ## 5. Bare DecryptKey and KeyStore.Import: the file's own address authenticates what the MAC does not cover -/
 
@@ -740,6 +848,15 @@ example : ∀ k', decryptKey toyP { wFile with crypto := { wFile.crypto with
 
 example : ∀ k', decryptKey toyP { wFile with crypto := { wFile.crypto with mac := ascii "00" } } (ascii "pw") ≠ .ok k' :=
   tamper_mac_rejected toyP wFile (ascii "pw") ⟨5, toyP.addrOf 5⟩ _ (by decide) (by decide)
+
+/-- unlocked_key_is_stored_key: a history on the witness file — unlock, unlock again (timed) while unlocked, wrong passphrase,
+    lock, timed unlock — leaves the stored key 5 as the signing key (toy address derivation is injective). -/
+def wState : KsState := ⟨fun a => if a = toyP.addrOf 5 then some wFile else none, fun _ => none⟩
+example : ((([KsOp.unlock (toyP.addrOf 5) (ascii "pw") false, .unlock (toyP.addrOf 5) (ascii "pw") true,
+      .unlock (toyP.addrOf 5) (ascii "qw") false] : List KsOp).foldl (KsState.step toyP) wState).signingKey (toyP.addrOf 5)) =
+    some ⟨5, toyP.addrOf 5⟩ := by decide
+example : ((([KsOp.unlock (toyP.addrOf 5) (ascii "pw") false, .lock (toyP.addrOf 5)] : List KsOp).foldl (KsState.step toyP) wState).signingKey
+    (toyP.addrOf 5)) = none := by decide
 
 /-- tamper_never_yields_other_key / getKey_rejects_iv_tamper: hypotheses satisfiable. -/
 example : getKey toyP (toyP.addrOf 5) wFile (ascii "pw") = .ok ⟨5, toyP.addrOf 5⟩ := by decide
